@@ -5,7 +5,12 @@ Driver for E12 TypedTool (C16).
 
 Records (ops | implementation observation):
   reset                                                        | ok
-  server cache=<n>          a new Server (and client) whose SchemaCache is cache n of the case; 0 = none | ok
+  server cache=<n> [ver=<v>|default] [peer=sdk|raw]
+                            a new Server whose SchemaCache is cache n of the case (0 = none) and a peer connected
+                            to it: the SDK client asked to run at protocol version v (default: left alone, i.e.
+                            `latestProtocolVersion`), or a foreign peer speaking raw JSON-RPC over a pipe at v
+                            (legacy handshake below 2026-07-28, per-request _meta from there on). v must be one of
+                            the regenerated `supportedProtocolVersions`.                       | ok nv=<negotiated version>
   tool name=<t> form=raw|schema isrc=d|e osrc=d|e|none isch=x<json>|- osch=x<json>|- iptr=<n>|- optr=<n>|-
        ity=x<json> oty=x<json> ikey=<hex> okey=<hex> ider=x<json>|- oder=x<json>|-
                             AddTool on the current server. isch/osch: the schemas the tool DECLARES (src e);
@@ -16,7 +21,10 @@ Records (ops | implementation observation):
   call [tool=<t>] args=x<json>|absent out=x<json>|nilptr|nilany [anyx=0|1] [hout=x<json>] content=n|0|1|2 herr=0|1|2
                             anyx=1: the handler holds int64/uint64 (not float64) in the `any` positions of its
                             output; hout: the JSON of the value the handler returns (filled in by the harness)
-        | inv=<0|1> seen=<jv|-> res=<ok|toolerr|rpcerr|panic> sc=<jv|-> content=<blocks|-> lib=<v|i|-> olib=<v|i|->
+        | inv=<0|1> seen=<jv|-> res=<ok|toolerr|rpcerr|panic> sc=<jv|-> content=<blocks|-> lib=<v|i|-> olib=<v|i|-> rt=<complete|->
+                            rt: the `resultType` member of the result on the wire — the one thing the dispatcher
+                            (`deliver`, Model.lean) makes depend on the session's protocol version; the C16 monitor
+                            does not read it (nor the version): what C16 demands of a result is the same at every version
   f64 <integer>                                                | <integer Go prints for float64(integer)>
 
 `x<json>` is hex of JSON text; `jv` is the blank-free canonical value form (`z t f n<dec> s<hex> [..] {..}`).
@@ -286,6 +294,15 @@ def showOpt (o : Option JVal) : String := match o with | some v => showJ v | non
 def render (o : Outcome) (lib olib : String) : String :=
   s!"inv={if o.seen.isSome then 1 else 0} seen={showOpt o.seen} res={showKind o.kind} sc={showOpt o.structured} content={showBlocks o.content} lib={lib} olib={olib}"
 
+def showRT : Option RType → String
+  | some .complete => "complete"
+  | some .inputRequired => "input_required"
+  | none => "-"
+
+/-- the model observation of a call at the session's protocol version -/
+def renderServed (dl : Delivered) (lib olib : String) : String :=
+  render dl.out lib olib ++ " rt=" ++ showRT dl.resultType
+
 def vi (b : Bool) : String := if b then "v" else "i"
 
 /-! ### canonical token → JVal (the handler's observed input, for the member-wise clause) -/
@@ -416,6 +433,7 @@ def Clause.text : Clause → String
   | .f12Panic => "C16/F12: tools/call with arguments null on a typed tool whose input schema declares a default panics (assignment to entry in nil map) instead of applying the defaults"
   | .panicked => "C16: the typed tool wrapper panicked"
   | .f16 => "C16/F16: successful result without structured content although an output schema is declared (Out = any, handler returned a nil output)"
+  | .scMissing => "C16: success_has_structured: successful result without structured content although an output type or schema is declared and the handler returned an output: the structured content must be the JSON of that output (with the schema's defaults) whatever JSON kind it is — object, array, string, number, boolean, null — and whatever protocol version the session runs at"
   | .f12NullSeen => "C16/F12: tools/call with arguments null: the handler observes null (a nil map) instead of the empty object with the schema's defaults"
   | .recvExact p a b => s!"C16: handler_receives_exact_integers: the handler received an integer that differs from the one sent ({showPath p} of its input: sent {showDec a}, received {showDec b}{viaF64 a b}); every integer a Go integer type holds, int64 or uint64 — [-2^63, 2^64) — must reach the typed handler unchanged"
   | .carryExact p a b => s!"C16: result_carries_exact_integers: the structured content carries an integer that differs from the one in the handler's output ({showPath p}: output {showDec a}, returned {showDec b}{viaF64 a b}); every integer a Go integer type holds, int64 or uint64 — [-2^63, 2^64) — must come back unchanged"
@@ -507,8 +525,15 @@ def engine : Engine MState where
       | some i => (d, { model := showDec (f64Dec (.ofInt i)) })
       | none => (d, { model := "bad-op" })
     | "server" :: rest =>
+      let ver := match getKV rest "ver" with
+        | none => Generated.TypedTool.latestProtocolVersion
+        | some "default" => Generated.TypedTool.latestProtocolVersion
+        | some v => v
       match (getKV rest "cache") >>= String.toNat? with
-      | some n => (d.server n, { model := "ok" })
+      | some n =>
+        -- a pair is asked to run at one of the SDK's supported versions and then runs at that version
+        if Generated.TypedTool.supportedProtocolVersions.contains ver then (d.server n ver, { model := "ok nv=" ++ ver })
+        else (d, { model := "bad-op" })
       | none => (d, { model := "bad-op" })
     | "tool" :: rest =>
       match parseToolOp rest with
@@ -526,11 +551,15 @@ def engine : Engine MState where
         match (parseCallEv rest) >>= mkCall td with
         | none => (d, { model := "bad-op" })
         | some ci =>
-          let rep := modelCall td ci
+          -- what a peer at the session's protocol version is answered: the wrapper, then the dispatcher
+          let served := modelServe d.ver td ci
+          let rep := served.out
           -- the reference validator's own verdicts, on exact values
           let lib := libIn td ci
           let olib := libOut td ci
-          let model := render rep (showLib lib) (showLib olib)
+          let model := renderServed served (showLib lib) (showLib olib)
+          -- a clause of a call on a session that is not at the SDK's default version names the version
+          let sess := if d.ver == Generated.TypedTool.latestProtocolVersion then "" else s!" [session at protocol version {d.ver}]"
           if !roundTrips model rep lib olib then (d, { model := "selfcheck-failed " ++ model }) else
           match parseObs impl with
           | none => (d, { model := model })
@@ -538,7 +567,7 @@ def engine : Engine MState where
             match judgeCall td ci o l ol with
             | some (.libIn a b) => (d, { model := impl, violated := some (Clause.text (.libIn a b)) })
             | some (.libOut a b) => (d, { model := impl, violated := some (Clause.text (.libOut a b)) })
-            | v => (d, { model := model, violated := v.map Clause.text })
+            | v => (d, { model := model, violated := v.map fun c => Clause.text c ++ sess })
     | _ => (d, { model := "bad-op" })
 
 end TypedTool
